@@ -69,8 +69,10 @@ Prefix(kind) == CASE kind = "select" -> << [m |-> "from_", src |-> "T1"], [m |->
 
 VARIABLES kind, hist, nv, n
 Init == kind \in Kinds /\ hist = <<>> /\ nv = 1 /\ n = 0
+\* a third clause comes from the light part of the pool (WHERE / LIMIT / OFFSET / row / SET / upsert values): the cube of the full pool is out of reach
+Light(k, v) == {p \in Pool(k, v) : p[1].m \in {"limit", "offset", "insert", "do_update"} \/ (p[1].m \in {"where", "set"} /\ p[2] = 1)}
 Next == /\ n < MaxCalls
-        /\ \E p \in Pool(kind, nv) :
+        /\ \E p \in (IF n < 2 THEN Pool(kind, nv) ELSE Light(kind, nv)) :
               /\ hist' = Append(hist, p[1])
               /\ nv' = nv + p[2]
         /\ n' = n + 1 /\ UNCHANGED kind
